@@ -152,8 +152,7 @@ pub fn run_case(a: &Args, tag: &'static str, idx: u64, acc: &mut Acc) {
     rng.shuffle(&mut pool);
     // two cases in three: two of the three names are string extensions of one another (`a` / `a.b`), so that
     // siblings, sources and destinations whose path text merely starts with another entry's path are common
-    const FAMILIES: &[(&str, &str)] = &[("a", "ab"), ("a", "a.b"), ("a", "a\\b"), ("a", "a b"), ("a", "a-1"), ("b", "b2"), ("é", "éé"), (".h", ".h.x"), ("d.x", "d.x.y"), ("x_w", "x_w2"), ("..x", "..x.")];
-    // (never a pair (n, n_wo): that is the overlay's marker-naming clash, probed on its own in props/alias.rs — KF3)
+    use crate::gen::FAMILIES;
     if rng.chance(2, 3) {
         let (base, ext) = *rng.pick(FAMILIES);
         pool.retain(|n| *n != base && *n != ext);
@@ -198,6 +197,9 @@ pub fn run_case(a: &Args, tag: &'static str, idx: u64, acc: &mut Acc) {
     acc.evaluations += 1;
     let pair_name = format!("{}→{}:{}", cfg_a.shape(), cfg_b.shape(), ["same-instance", "twin-instance", "other-backend"][pairing]);
     let nops = rng.range(1, 4);
+    // names freed by an earlier successful removal / move of this case: re-used as destinations now and then (on an
+    // overlay such a name carries a deletion marker)
+    let mut freed: Vec<String> = vec![];
     for step in 0..nops {
         let sa = snapshot(&root_a, &probe, 8192);
         let sb = if same { None } else { Some(snapshot(&root_b, &probe, 8192)) };
@@ -222,6 +224,9 @@ pub fn run_case(a: &Args, tag: &'static str, idx: u64, acc: &mut Acc) {
         };
         let pick_dst = |rng: &mut Rng| -> String {
             let in_b: Vec<&String> = model.m.keys().filter(|k| k.starts_with(bpre)).collect();
+            if same && !freed.is_empty() && rng.chance(1, 3) {
+                return rng.pick(&freed).clone();
+            }
             match rng.below(8) {
                 0 => (*rng.pick(&in_b)).clone(),                       // existing entry (refusal)
                 1 => format!("{}/nodir/dst", bpre),                    // missing parent
@@ -281,6 +286,11 @@ pub fn run_case(a: &Args, tag: &'static str, idx: u64, acc: &mut Acc) {
         let res = exec2(&root_a, &root_b, &op);
         let events = ba.ctl.stop_recording();
         let route = route_of(&op, same, &events);
+        if res.is_ok() {
+            if let Op::RemoveDirAll(p) | Op::MoveDir(p, _) | Op::MoveFile(p, _) = &op {
+                freed.push(p.clone());
+            }
+        }
         acc.note("routes", route.clone());
         acc.cell(format!("{}|{}|{}|{}", route, clsig, if res.is_ok() { "Ok" } else { "Err" }, ["same", "twin", "other"][pairing]));
         acc.steps += 1;
